@@ -48,6 +48,16 @@ pub fn mut_reps(x: &[u8]) -> Vec<(&'static str, BytesMut)> {
     let tail = b.split_off(x.len());
     std::mem::forget(tail); // keeps the buffer shared for the lifetime of the table (deliberate)
     v.push(("shared", b));
+    // spare capacity of a length-dependent size: a comparison must not look at capacity() (or anything but the bytes)
+    let mut b = BytesMut::with_capacity(x.len() + 1 + (x.len() * 7) % 23);
+    b.extend_from_slice(x);
+    v.push(("vec-with-spare-capacity", b));
+    let mut b = BytesMut::with_capacity(4 + x.len() + 9);
+    b.extend_from_slice(b"head");
+    b.extend_from_slice(x);
+    let head = b.split_to(4);
+    std::mem::forget(head); // shared for the lifetime of the table, see above
+    v.push(("shared-with-spare-capacity", b));
     v
 }
 
